@@ -23,7 +23,8 @@ Record hist_params := mkHP {
   hp_roots : roots_params;
   hp_radix : radix_params;
   hp_iter : iter_params;
-  hp_serde : serde_params
+  hp_serde : serde_params;
+  hp_bytes : bytes_params
 }.
 (** the initial guess of the Newton iterations: the no_std one, 2^max_bits (the std build starts from
     an f64 estimate instead; the result does not depend on the guess: C11_guess_independent) *)
@@ -75,16 +76,16 @@ Definition construct (P : hist_params) (c : ctor) : outcome obj :=
   | CUVec d => Ret (OU (biguint_from_vec d))
   | CUNew w => Ret (OU (unew w))
   | CUSlice w => Ret (OU (ufrom_slice w))
-  | CUBytesLe b => do r <- ufrom_bytes_le b; Ret (OU r)
-  | CUBytesBe b => do r <- ufrom_bytes_be b; Ret (OU r)
+  | CUBytesLe b => do r <- ufrom_bytes_le (hp_bytes P) b; Ret (OU r)
+  | CUBytesBe b => do r <- ufrom_bytes_be (hp_bytes P) b; Ret (OU r)
   | CUSerde w => do r <- of_opt (de_biguint_tokens (hp_serde P) None w) 1410; Ret (OU r)
   | CIParts s d => Ret (OI (from_biguint s (biguint_from_vec d)))
   | CINew s w => Ret (OI (inew s w))
   | CISlice s w => Ret (OI (ifrom_slice s w))
-  | CIBytesLe s b => do r <- ifrom_bytes_le s b; Ret (OI r)
-  | CIBytesBe s b => do r <- ifrom_bytes_be s b; Ret (OI r)
-  | CISignedLe b => do r <- from_signed_bytes_le b; Ret (OI r)
-  | CISignedBe b => do r <- from_signed_bytes_be b; Ret (OI r)
+  | CIBytesLe s b => do r <- ifrom_bytes_le (hp_bytes P) s b; Ret (OI r)
+  | CIBytesBe s b => do r <- ifrom_bytes_be (hp_bytes P) s b; Ret (OI r)
+  | CISignedLe b => do r <- from_signed_bytes_le (hp_bytes P) b; Ret (OI r)
+  | CISignedBe b => do r <- from_signed_bytes_be (hp_bytes P) b; Ret (OI r)
   | CISerde s w => do r <- of_opt (de_bigint (hp_serde P) (sign_z s) None w) 1411; Ret (OI r)
   | CIFromU d => Ret (OI (ifrom_u (biguint_from_vec d)))
   | CURadixLe b r => do o <- u_from_radix_le (hp_radix P) b r; do d <- of_opt o 1412; Ret (OU d)
@@ -327,17 +328,17 @@ Definition export_of (P : hist_params) (e : export) (s : obj) : outcome (list Z)
   | OI x, EText r => i_to_str_radix (hp_radix P) x r
   | OU d, EU32 => uto_u32_digits (hp_iter P) d
   | OU d, EU64 => Ret (uto_u64_digits d)
-  | OU d, EBytesLe => uto_bytes_le d
-  | OU d, EBytesBe => uto_bytes_be d
+  | OU d, EBytesLe => uto_bytes_le (hp_bytes P) d
+  | OU d, EBytesBe => uto_bytes_be (hp_bytes P) d
   | OU d, EBits => Ret [ubits d]
   | OU d, ECountOnes => Ret [ucount_ones d]
   | OU d, ETrailingZeros => Ret (match utrailing_zeros d with Some k => [k] | None => [] end)
   | OI x, EU32 => do r <- ito_u32_digits (hp_iter P) x; Ret (sign_z (fst r) :: snd r)
   | OI x, EU64 => let r := ito_u64_digits x in Ret (sign_z (fst r) :: snd r)
-  | OI x, EBytesLe => do r <- ito_bytes_le x; Ret (sign_z (fst r) :: snd r)
-  | OI x, EBytesBe => do r <- ito_bytes_be x; Ret (sign_z (fst r) :: snd r)
-  | OI x, ESignedLe => to_signed_bytes_le x
-  | OI x, ESignedBe => to_signed_bytes_be x
+  | OI x, EBytesLe => do r <- ito_bytes_le (hp_bytes P) x; Ret (sign_z (fst r) :: snd r)
+  | OI x, EBytesBe => do r <- ito_bytes_be (hp_bytes P) x; Ret (sign_z (fst r) :: snd r)
+  | OI x, ESignedLe => to_signed_bytes_le (hp_bytes P) x
+  | OI x, ESignedBe => to_signed_bytes_be (hp_bytes P) x
   | OI x, EBits => Ret [ibits x]
   | OI x, ETrailingZeros => Ret (match itrailing_zeros x with Some k => [k] | None => [] end)
   | _, _ => ill
